@@ -93,6 +93,37 @@ def label_name(prog, o):
     return str_returning_helper(prog, o)
 
 
+def _instruction_alternatives(body, pv, op):
+    """[(block, Instruction variant, payload origins)] when the operand is a local that is assigned
+    an Instruction aggregate in several blocks (match arms) - else []."""
+    p = mir.op_place(op)
+    if p is None or p[1]:
+        return []
+    l = p[0]
+    seen = set()
+    while l not in seen:
+        seen.add(l)
+        ds = [d for d in body.defs().get(l, []) if not body.is_cleanup(d[0])]
+        if len(ds) == 1 and ds[0][1] != "T" and ds[0][2]["r"]["k"] == "use":
+            q = mir.op_place(ds[0][2]["r"]["o"])
+            if q is not None and not q[1]:
+                l = q[0]
+                continue
+        break
+    ds = [d for d in body.defs().get(l, []) if not body.is_cleanup(d[0])]
+    if len(ds) < 2:
+        return []
+    out = []
+    for b, i, st in ds:
+        if i == "T":
+            return []
+        r = st["r"]
+        if r.get("k") != "agg" or not (r.get("adt") or "").endswith("::Instruction"):
+            return []
+        out.append((b, r.get("variant"), tuple(pv.of_operand(o) for o in r.get("ops", []))))
+    return out
+
+
 def events(prog, fn):
     """bb -> Ev for the generator function fn."""
     out = {}
@@ -114,6 +145,16 @@ def events(prog, fn):
             if o is not None and o[0] == "agg" and o[1] == "adt" and o[2].startswith("Instruction::"):
                 instr = o[2].split("::", 1)[1]
                 payload = o[3]
+            if instr is None and len(t["args"]) > 1:
+                # `let i = match .. { A => Instruction::X, B => Instruction::Y }; self.push(i, pos)`:
+                # the instruction is chosen in the arms and pushed once after them.  The push is
+                # attributed to each arm's assignment (every path runs exactly one of them, and
+                # nothing is emitted between the assignment and the push).
+                alts = _instruction_alternatives(body, pv, t["args"][1])
+                if alts and not any(ab in out for ab, _i, _p in alts):
+                    for ab, ai, ap in alts:
+                        out[ab] = Ev("push", ab, line, instr=ai, args=args, payload=ap)
+                    continue
             out[b] = Ev("push", b, line, instr=instr, args=args, payload=payload)
         elif name in ("label", "jump", "jump_if_false"):
             out[b] = Ev(name, b, line, name=label_name(prog, args[1]) if len(args) > 1 else None,
